@@ -1,1 +1,16 @@
-From Nitro Require Import Opt.Run.
+(* Tie/Tie_C11.v — obligations over the table regenerated from toggle::parse_env_value on every run *)
+From Coq Require Import List Bool.
+From Nitro Require Import Base.Bytes Opt.ParserModel Opt.Vocab Opt.VocabTie Opt.Run Gen.GenVocab.
+Import ListNotations.
+
+(* no match ends in the user-input error *)
+Theorem Tie_C11_fallthrough_raises_user_error : gen_fallthrough = FRaiseUser.
+Proof. reflexivity. Qed.
+
+(* the code's word table computes exactly the documented vocabulary, for every word *)
+Theorem Tie_C11_vocabulary : forall w, eval_clauses gen_clauses w = env_word w.
+Proof. apply table_ok_sound. vm_compute. reflexivity. Qed.
+
+(* 15 + 15 words, no duplicates *)
+Theorem Tie_C11_counts : length gen_clauses = 30 /\ length truthy = 15 /\ length falsy = 15.
+Proof. vm_compute. repeat split. Qed.
